@@ -1,14 +1,62 @@
 mod ast;
 mod chart;
+mod engine;
+mod gens;
 mod interp;
 mod loader;
 mod pipeline;
+mod props;
 mod util;
 
+use engine::{drive, replay, seed_from_env, tier_from};
+
+fn usage() -> ! {
+    eprintln!("usage: pv <ID> [quick|thorough] | pv <ID> --replay <file> | pv show <grammar.par> <input>");
+    std::process::exit(2)
+}
+
+macro_rules! dispatch {
+    ($id:expr, $args:expr, $( $name:literal => $chk:expr ),* $(,)?) => {
+        match $id {
+            $( $name => {
+                let c = $chk;
+                if $args.get(2).map(|s| s.as_str()) == Some("--replay") {
+                    let Some(p) = $args.get(3) else { usage() };
+                    replay(&c, p)
+                } else {
+                    drive(&c, tier_from($args.get(2).map(|s| s.as_str())), seed_from_env())
+                }
+            } )*
+            _ => usage(),
+        }
+    };
+}
+
 fn main() {
-    let g = std::env::args().nth(1).unwrap();
-    let input = std::env::args().nth(2).unwrap();
-    let text = std::fs::read_to_string(&g).unwrap();
+    let args: Vec<String> = std::env::args().collect();
+    let Some(id) = args.get(1) else { usage() };
+    if id == "show" {
+        show(&args[2], &args[3]);
+        return;
+    }
+    // global watchdog: a run that exceeds its budget is inconclusive (exit 2), never a violation
+    let limit: u64 = std::env::var("PV_WATCHDOG_S").ok().and_then(|s| s.parse().ok()).unwrap_or(
+        if tier_from(args.get(2).map(|s| s.as_str())) == engine::Tier::Thorough { 4 * 3600 } else { 1500 },
+    );
+    let idc = id.clone();
+    std::thread::spawn(move || {
+        std::thread::sleep(std::time::Duration::from_secs(limit));
+        println!("HARNESS-ERROR property={idc}: watchdog after {limit}s (inconclusive)");
+        std::process::exit(2);
+    });
+    let code = dispatch!(id.as_str(), args,
+        "C01" => props::c01::C01,
+    );
+    std::process::exit(code);
+}
+
+fn show(g: &str, input: &str) {
+    let text = std::fs::read_to_string(g).unwrap();
     let b = match pipeline::build(&text, &pipeline::Opts::default()) {
         Ok(b) => b,
         Err(e) => {
@@ -16,9 +64,15 @@ fn main() {
             return;
         }
     };
-    let l = match loader::load(&b.parser_src) { Ok(l) => l, Err(e) => { println!("LOAD ERR {e}"); println!("{}", b.parser_src); return; } };
+    let l = match loader::load(&b.parser_src) {
+        Ok(l) => l,
+        Err(e) => {
+            println!("LOAD ERR {e}\n{}", b.parser_src);
+            return;
+        }
+    };
     println!("{:?}", l.tables.modes);
-    let r = interp::run(&l, &input, &interp::RunOpts::default(), 100000);
+    let r = interp::run(&l, input, &interp::RunOpts::default(), 100000);
     println!("{:?}\n{:?}\n{:?}", r.outcome, r.trace, r.tree);
-    println!("{:?}", interp::drain(&l, &input, 1));
+    println!("{:?}", interp::drain(&l, input, 1));
 }
